@@ -1,13 +1,52 @@
 import Model.Proto
 import Model.Bits
 import Model.Search
+import Model.Probing
 /-! Driver for stream `primitives` (C20): executes the model on the same operation lines as harness/c20.cc. -/
 open KV KV.Proto KV.Bits KV.Search
+open KV.Probing (Table Auto Entry Probe Res)
 
 structure St where
   mem : Nat := 0
   size : Nat := 0
   arr : Array Nat := #[]
+  tab : Table := { s := fun _ => none, N := 1, entries := 0 }
+  p2 : Bool := false
+  hash : Nat → Nat := id
+  auto : Auto := { t := { s := fun _ => none, N := 1, entries := 0 }, thr := 0 }
+
+/-! ### stream `probing` -/
+
+/-- hash functors of the harness: `id` = util::IdentityHash, `mul c` = k*c mod 2^64, `shr c` = k >> c -/
+def mkHash (kind : String) (c : Nat) : Option (Nat → Nat) :=
+  match kind with
+  | "id" => some id
+  | "mul" => some fun k => (k * c) % 2^64
+  | "shr" => some fun k => k >>> c
+  | _ => none
+
+/-- re-materialise the slot function from an array (the model's `set` builds closure chains);
+extensionally the identity on `[0, N)` -/
+def norm (t : Table) : Table :=
+  let a : Array (Option Entry) := Array.ofFn (n := t.N) (fun i => t.s i.val)
+  { t with s := fun i => a.getD i none }
+
+def dumpTable (t : Table) : String :=
+  let cells := (List.range t.N).filterMap fun p =>
+    match t.s p with
+    | some (k, v) => some s!"{p}:{k}:{v}"
+    | none => none
+  " ".intercalate (toString t.N :: toString t.entries :: cells)
+
+/-- `ProbingHashTable<…>::Size(entries, multiplier)` in buckets:
+`RoundBuckets(max(entries + 1, uint64(multiplier * float(entries))))`, single precision -/
+def autoBuckets (init : Nat) : Nat :=
+  KV.Probing.roundBuckets (max (init + 1) ((1.2 : Float32) * Float32.ofNat init).toUInt64.toNat)
+
+def showProbe : Option Probe → String
+  | none => "diverge"
+  | some (.found p v) => s!"found {p} {v}"
+  | some (.absent _) => "absent"
 
 /-- canonical answer of a search: only presence is observable (with duplicates the index depends on the pivot) -/
 def showFound (arr : Array Nat) (key : Nat) : Option Nat → String
@@ -89,6 +128,74 @@ def step (s : St) (line : String) : St × String :=
     | some k => (s, showFound s.arr k (binaryFind (fun i => s.arr.getD i 0) k s.arr.size 0 s.arr.size))
     | none => (s, "bad-op")
   | ["dump"] => (s, bytesToHex (natToLe s.mem s.size))
+  | ["pnew", md, n, _inv, hk, hp] =>
+    match n.toNat?, hp.toNat? with
+    | some n, some hp =>
+      match mkHash hk hp with
+      | some h =>
+        if md = "p2" && !KV.Probing.isPow2 n then (s, "badsize")
+        else ({ s with tab := { s := fun _ => none, N := n, entries := 0 }, p2 := md = "p2", hash := h }, "ok")
+      | none => (s, "bad-op")
+    | _, _ => (s, "bad-op")
+  | ["ins", k, v] =>
+    match k.toNat?, v.toNat? with
+    | some k, some v =>
+      match (if s.p2 then KV.Probing.insertP2 s.hash s.tab k v else KV.Probing.insert s.hash s.tab k v) with
+      | .ok (q, t') => ({ s with tab := norm t' }, s!"ok {q}")
+      | .full t' => ({ s with tab := t' }, "full")
+      | .diverge => (s, "diverge")
+    | _, _ => (s, "bad-op")
+  | ["foi", k, v] =>
+    match k.toNat?, v.toNat? with
+    | some k, some v =>
+      match (if s.p2 then KV.Probing.findOrInsertP2 s.hash s.tab k v else KV.Probing.findOrInsert s.hash s.tab k v) with
+      | .ok (true, p, w, _) => (s, s!"found {p} {w}")
+      | .ok (false, p, _, t') => ({ s with tab := norm t' }, s!"new {p}")
+      | .full t' => ({ s with tab := t' }, "full")
+      | .diverge => (s, "diverge")
+    | _, _ => (s, "bad-op")
+  | ["find", k] =>
+    match k.toNat? with
+    | some k => (s, showProbe (if s.p2 then KV.Probing.findPosP2 s.hash s.tab k else KV.Probing.findPos s.hash s.tab k))
+    | none => (s, "bad-op")
+  | ["size"] => (s, toString s.tab.entries)
+  | ["pdump"] => (s, dumpTable s.tab)
+  | "dbl" :: _ =>   -- Double(new_base, clear_new): an optional word "noclear" (the harness pre-fills the new half)
+    match (if s.p2 then KV.Probing.doubleP2 s.hash s.tab else KV.Probing.double s.hash s.tab) with
+    | some t' => ({ s with tab := norm t' }, "ok")
+    | none => (s, "diverge")
+  | ["anew", init, _inv, hk, hp] =>
+    match init.toNat?, hp.toNat? with
+    | some init, some hp =>
+      match mkHash hk hp with
+      | some h =>
+        let n := autoBuckets init
+        ({ s with auto := { t := { s := fun _ => none, N := n, entries := 0 }, thr := KV.Probing.thetaReal n }, hash := h },
+         s!"ok {n}")
+      | none => (s, "bad-op")
+    | _, _ => (s, "bad-op")
+  | ["ains", k, v] =>
+    match k.toNat?, v.toNat? with
+    | some k, some v =>
+      match s.auto.insertP2 s.hash KV.Probing.thetaReal k v with
+      | some (q, a') => ({ s with auto := { a' with t := norm a'.t } }, s!"ok {q}")
+      | none => (s, "diverge")
+    | _, _ => (s, "bad-op")
+  | ["afoi", k, v] =>
+    match k.toNat?, v.toNat? with
+    | some k, some v =>
+      match s.auto.findOrInsertP2 s.hash KV.Probing.thetaReal k v with
+      | .ok (true, p, w, a') => ({ s with auto := { a' with t := norm a'.t } }, s!"found {p} {w}")
+      | .ok (false, p, _, a') => ({ s with auto := { a' with t := norm a'.t } }, s!"new {p}")
+      | .full t' => ({ s with auto := { s.auto with t := t' } }, "full")
+      | .diverge => (s, "diverge")
+    | _, _ => (s, "bad-op")
+  | ["afind", k] =>
+    match k.toNat? with
+    | some k => (s, showProbe (KV.Probing.findPosP2 s.hash s.auto.t k))
+    | none => (s, "bad-op")
+  | ["asize"] => (s, toString s.auto.t.entries)
+  | ["adump"] => (s, dumpTable s.auto.t)
   | ["rb", v] =>
     match v.toNat? with
     | some v => (s, toString (requiredBits v))
